@@ -99,6 +99,24 @@ def families(tier, seed):
         tree = op["eqs"][0][2]
         vals = {k: (v[1] if v[0] == "const" else round(rng.uniform(-1, 1), 3)) for k, v in op["vars"].items()}
         out.append(dict(tag=f"{tag}/eval", features=dict(feats, path="eval"), kind="expr_eval", tree=tree, values=vals, style=rng.choice([0, 1, 2, 3])))
+    # the generated source code of the compiled backend: the same value as the arithmetic (expressions that call the documented functions,
+    # whose Fortran bodies are emitted as source text next to the equations)
+    import json as _json
+    n_f = 0
+    with_calls = [(t_, f_, m_) for t_, f_, m_ in models if '"call"' in _json.dumps(m_["ops"]["eo"]["eqs"][0][2])]
+    with_calls.sort(key=lambda x: '"sigmoid"' not in _json.dumps(x[2]["ops"]["eo"]["eqs"][0][2]))        # the functions with a hand-written Fortran body first
+    for tag, feats, model in with_calls:
+        tf = _mdl.tree_features(model["ops"]["eo"]["eqs"][0][2], seed)
+        if n_f < (4 if tier == "quick" else 16) and not tf.get("const_call_funcs") and not tf.get("nested_same_function"):
+            n_f += 1
+            out.append(dict(tag=f"{tag}/code/fortran", features=dict(feats, path="code", backend="fortran"), kind="field", model=model, vec=False,
+                            seed=seed + 7, style=0, n_states=3, n_param_draws=1, backend="fortran"))
+    # fixed witness (fixed defect: the Fortran module declared PI = 4.0*atan(1.0), a single-precision value in a double-precision model)
+    for cname in ("pi",):        # (the constant E is a listed finding of its own on every backend)
+        wm = dict(ops={"eo": dict(name="eo", eqs=[["x", "de", ["+", ["/", ["var", cname], ["+", ["num", 2.0], ["var", "a"]]], ["var", "x"]]]],
+                                  vars={"x": ["output", 0.21], "a": ["const", 1.06]})}, nodes={"p": dict(ops=["eo"])}, edges=[])
+        out.append(dict(tag=f"W-constant-{cname}/code/fortran", features=dict(path="code", backend="fortran", constant=cname), kind="field", model=wm, vec=False,
+                        seed=seed + 7, style=0, n_states=3, n_param_draws=1, backend="fortran"))
     # sequences of expressions in one process (direct evaluation): random batches, and pairs whose non-commutative node has compound
     # operands of different kinds with the longer operand on opposite sides
     # (expressions with the structure of a listed finding — a function of numerically constant arguments, a function nested in
